@@ -170,7 +170,7 @@ spec fn state_ranges(s: &State) -> bool {
 //@ spec
 //@| requires state_ranges(state),
 //@| ensures r == state.utxos.next_height + state.unstable_blocks.tree.best_path().len() - 1,
-//@ before "unstable_blocks::get_main_chain_length"
+//@ start
 //@| proof { lemma_best_path_le_depth(&state.unstable_blocks.tree); }
 //@end
 
@@ -262,7 +262,7 @@ proof fn lemma_child_depth_smaller(t: &BlockTree<CachedBlock>, i: int)
 
 //@extract file=canister/src/state.rs item="fn ingest_stable_blocks_into_utxoset" props=C03
 //@ ret r
-//@ rewrite R9 "fn pop_block\(state: &mut State, ingested_block_hash: BlockHash\) \{" => "fn pop_block(state: &mut State, ingested_block_hash: BlockHash) requires stable_child_spec(&old(state).unstable_blocks).is_some(), old(state).unstable_blocks.tree.root.block_hash == ingested_block_hash, old(state).utxos.next_height >= 1, ensures final(state).utxos == old(state).utxos, final(state).stable_block_headers.by_height@ == old(state).stable_block_headers.by_height@.insert((old(state).utxos.next_height - 1) as Height, ingested_block_hash), final(state).metrics == old(state).metrics, 0 <= stable_child_spec(&old(state).unstable_blocks).unwrap() < old(state).unstable_blocks.tree.children@.len(), final(state).unstable_blocks.tree == old(state).unstable_blocks.tree.children@[stable_child_spec(&old(state).unstable_blocks).unwrap()], {"
+//@ rewrite R9 "fn pop_block\(state: &mut State, ingested_block_hash: BlockHash\)( -> [\w:<>]+)? \{" => "fn pop_block(state: &mut State, ingested_block_hash: BlockHash)\1 requires stable_child_spec(&old(state).unstable_blocks).is_some(), old(state).unstable_blocks.tree.root.block_hash == ingested_block_hash, old(state).utxos.next_height >= 1, ensures final(state).utxos == old(state).utxos, headers_below_unchanged(old(state).stable_block_headers.by_height@, final(state).stable_block_headers.by_height@, (old(state).utxos.next_height - 1) as Height), final(state).metrics == old(state).metrics, 0 <= stable_child_spec(&old(state).unstable_blocks).unwrap() < old(state).unstable_blocks.tree.children@.len(), final(state).unstable_blocks.tree == old(state).unstable_blocks.tree.children@[stable_child_spec(&old(state).unstable_blocks).unwrap()], {"
 //@ spec
 //@| requires
 //@|     wf_ingesting(old(state)),
@@ -305,7 +305,7 @@ proof fn lemma_child_depth_smaller(t: &BlockTree<CachedBlock>, i: int)
 
 //@extract file=canister/src/state.rs item="fn ingest_stable_blocks_into_utxoset" props=C07 rename=ingest_stable_blocks_into_utxoset_c07
 //@ ret r
-//@ rewrite R9 "fn pop_block\(state: &mut State, ingested_block_hash: BlockHash\) \{" => "fn pop_block(state: &mut State, ingested_block_hash: BlockHash) requires stable_child_spec(&old(state).unstable_blocks).is_some(), old(state).unstable_blocks.tree.root.block_hash == ingested_block_hash, old(state).utxos.next_height >= 1, ensures final(state).utxos == old(state).utxos, final(state).stable_block_headers.by_height@ == old(state).stable_block_headers.by_height@.insert((old(state).utxos.next_height - 1) as Height, ingested_block_hash), final(state).metrics == old(state).metrics, 0 <= stable_child_spec(&old(state).unstable_blocks).unwrap() < old(state).unstable_blocks.tree.children@.len(), final(state).unstable_blocks.tree == old(state).unstable_blocks.tree.children@[stable_child_spec(&old(state).unstable_blocks).unwrap()], {"
+//@ rewrite R9 "fn pop_block\(state: &mut State, ingested_block_hash: BlockHash\)( -> [\w:<>]+)? \{" => "fn pop_block(state: &mut State, ingested_block_hash: BlockHash)\1 requires stable_child_spec(&old(state).unstable_blocks).is_some(), old(state).unstable_blocks.tree.root.block_hash == ingested_block_hash, old(state).utxos.next_height >= 1, ensures final(state).utxos == old(state).utxos, final(state).stable_block_headers.by_height@ == old(state).stable_block_headers.by_height@.insert((old(state).utxos.next_height - 1) as Height, ingested_block_hash), final(state).metrics == old(state).metrics, 0 <= stable_child_spec(&old(state).unstable_blocks).unwrap() < old(state).unstable_blocks.tree.children@.len(), final(state).unstable_blocks.tree == old(state).unstable_blocks.tree.children@[stable_child_spec(&old(state).unstable_blocks).unwrap()], {"
 //@ spec
 //@| requires
 //@|     wf_ingesting(old(state)),
@@ -471,8 +471,8 @@ fn vp_refuse() -> ! { panic!() }
 //@ spec
 //@| requires state_ranges(&global_state()),
 //@| ensures r == synced_spec(&global_state()),
-//@ before "main_chain_height + SYNCED_THRESHOLD"
-//@| proof { lemma_best_path_le_depth(&state.unstable_blocks.tree); }
+//@ start
+//@| proof { lemma_best_path_le_depth(&global_state().unstable_blocks.tree); }
 //@end
 //@extract file=canister/src/lib.rs item="fn verify_synced" props=C14 mode=refuse
 //@ r7 ro="vp_state()" type=State
